@@ -90,6 +90,22 @@ def mc_cfg(I, N, inv, sim=False, mut=None):
     return mc, cfg
 
 
+def bridge(I, name):
+    """do the conditions of the relation-level theorems (VOAccuracyAbs: V1-V3 / W1, W3) hold in this instantiation's lattice geometry?
+    Evaluated once by TLC (ASSUME + PrintT in the MC module); returns True / False, or None for kinds the bridge is not stated for."""
+    if I["Kind"] != "box" or I["Fam"] not in ("paveba", "vogp"):
+        return None
+    mc, cfg = mc_cfg(I, 1, "Sane")
+    mc = mc.replace("====\n", 'ASSUME PrintT(<<"BRIDGE", Bridge>>)\nBInit == mu = [i \\in D |-> <<0, 0>>] /\\ S = {} /\\ P = {} /\\ U = {} /\\ done = TRUE /\\ '
+                    'reg = [i \\in D |-> Whole] /\\ rad = [i \\in D |-> 0] /\\ robust = TRUE /\\ rnd = 0\nBNext == UNCHANGED vars\n====\n')
+    cfg = cfg.replace("INIT Init\nNEXT Next", "INIT BInit\nNEXT BNext").replace("INVARIANT Sane\nINVARIANT Sane\nVIEW View\n", "INVARIANT Sane\n")
+    res = tlc.run("MCSafe", cfg, files={"MCSafe.tla": mc}, timeout=1200, workers=2)
+    for v in res.prints:
+        if isinstance(v, tuple) and len(v) == 2 and v[0] == "BRIDGE":
+            return bool(v[1])
+    raise tlc.MachineryError("bridge evaluation of %s gave no verdict: %s" % (name, (res.error or res.stdout[-400:])))
+
+
 MUT_QUICK = {
     "pavgp-ih/orth-eps2": ["A-without-U", "useful-swapped", "cover-swapped", "dom-swapped"],
     "pavgp-ih/acute": ["A-without-U", "useful-swapped", "cover-swapped", "dom-corner"],
@@ -271,9 +287,39 @@ def accurate(I, mu, P):
     return True, ""
 
 
+ABS_CFG = 'CONSTANTS\n D = %s\n Fam = "%s"\n UseV2 = %s\n UseV3 = %s\nINIT Init\nNEXT Next\nINVARIANT %s\nINVARIANT Sane\nCHECK_DEADLOCK FALSE\n'
+
+
+def relation_level(ctx, prop):
+    """the accuracy statement without geometry (spec/VOAccuracyAbs.tla): TLC for every truth and environment on 2-3 designs, the
+    conditions shown to be needed (dropping one yields an inaccurate run), and the tlapm proof for every design set"""
+    from . import tlaps
+    fam, inv = ("paveba", "PavebaInv") if prop == "C01" else ("vogp", "VogpInv")
+    runs = [("{1, 2, 3}" if fam == "paveba" else "{1, 2}", "TRUE", "TRUE", True)]
+    if fam == "paveba":
+        runs += [("{1, 2, 3}", "FALSE", "TRUE", False), ("{1, 2, 3}", "TRUE", "FALSE", False)]
+    for D, v2, v3, expect in runs:
+        res = tlc.run("VOAccuracyAbs", ABS_CFG % (D, fam, v2, v3, inv), timeout=1500)
+        ctx.add_tlc(res, "VOAccuracyAbs/%s D=%s V2=%s V3=%s" % (fam, D, v2, v3))
+        if expect and (res.violated or not res.ok):
+            raise tlc.MachineryError("VOAccuracyAbs %s: %s %s" % (fam, res.violated, res.error))
+        if not expect and res.violated != inv:
+            raise tlc.MachineryError("VOAccuracyAbs %s without V2=%s V3=%s should have an inaccurate run (vacuity guard): %s %s" % (fam, v2, v3, res.violated, res.error))
+    if fam == "vogp":
+        r, behs = tlc.simulate("VOAccuracyAbs", (ABS_CFG % ("{1, 2, 3}", fam, "TRUE", "TRUE", inv)), num=(400 if ctx.tier == "thorough" else 60), depth=8,
+                               seed=ctx.seed + 5, timeout=1200)
+        ctx.add_tlc(r, "VOAccuracyAbs/vogp -simulate D=3")
+        if r.violated:
+            raise tlc.MachineryError("VOAccuracyAbs vogp D=3 (simulation): %s" % r.violated)
+    nob = tlaps.prove("VOAccuracyProofs")
+    ctx.extra["tlaps_obligations_proved"] = nob
+    ctx.trusted.append("tlapm 1.6 back ends (Zenon, SMT, PTL) for the relation-level accuracy theorems of spec/proofs/VOAccuracyProofs.tla (any number of designs)")
+
+
 def run_prop(ctx, prop):
     import vopy.algorithms  # noqa: F401
     thorough = ctx.tier == "thorough"
+    relation_level(ctx, prop)
     inv = "AccuratePRobust" if prop == "C01" else "AccurateVRobust"
     names = [k for k, v in INST.items() if v["prop"] == prop]
     jobs = []
@@ -288,6 +334,12 @@ def run_prop(ctx, prop):
         ctx.add_tlc(res, "VOSafety/%s/N=%d/G=%d" % (name, N, I["G"]))
         if res.error and not res.violated:
             raise tlc.MachineryError("VOSafety %s: %s" % (name, res.error))
+        br = bridge(I, name)
+        ctx.extra.setdefault("bridge_to_relation_level_theorem", {})[name] = br
+        if br and res.violated and res.violated != "Sane":
+            # proofs/VOAccuracyProofs (tlapm, any number of designs) says accuracy follows from the bridge conditions
+            raise tlc.MachineryError("VOSafety %s: the bridge conditions hold on the lattice but TLC reports %s violated - the specification "
+                                     "contradicts its own relation-level theorem" % (name, res.violated))
         if res.violated:
             if res.violated == "Sane":
                 raise tlc.MachineryError("VOSafety %s violates Sane" % name)
